@@ -17,6 +17,7 @@ from .places import deref
 from .printdrive import PrintInterp
 
 PP = 'toml_edit::parser::'
+V_ = 'toml_edit::value::Value::'
 OK = 'core::result::Result::Ok'
 KEY_RE = re.compile(r'([ \t]*)([A-Za-z0-9_-]+|"[^"\\\n]*"|\'[^\'\n]*\')([ \t]*)')
 VAL_RE = re.compile(r'[+-]?[0-9]+|true|false|"[^"\\\n]*"')
@@ -34,10 +35,130 @@ def rng(a, b):
     return ('range', a, b - 1)            # the evaluator keeps ranges with an inclusive end
 
 
+class ScriptedInterp(PrintInterp):
+    """`p.parse_next(input)?` inside a parser function that does its work in statements (array_values, array_value) yields what the grammar rule `p` matched:
+    the results are supplied, in the order of the grammar, by the tokenizer"""
+    script = None
+
+    def _mcall(self, e, env):
+        if self.script is not None and e.get('name') in ('parse_next', 'parse_peek'):
+            if not self.script:
+                raise Unanalysable('the function asks for more parse results than its grammar rule has parts')
+            return ('ctor', OK, (self.script.pop(0),))
+        return super()._mcall(e, env)
+
+
+def _tag_of_type(t):
+    t = (t or '').replace('&mut ', '').replace('&', '').strip()
+    if t.startswith('core::ops::range::Range<'):
+        return 'range'
+    if t == 'alloc::vec::Vec<toml_edit::key::Key>':
+        return 'keys'
+    if t.startswith('alloc::vec::Vec<('):
+        return 'pairs'
+    if t.startswith('alloc::vec::Vec<toml_edit::item::Item>'):
+        return 'items'
+    for full, tag in (('toml_edit::value::Value', 'value'), ('toml_edit::raw_string::RawString', 'raw'), ('toml_edit::internal_string::InternalString', 'istr'),
+                      ('toml_edit::key::Key', 'key'), ('toml_edit::item::Item', 'item'), ('u8', 'byte')):
+        if t == full:
+            return tag
+    if t in ('str', 'alloc::string::String') or t.startswith('alloc::borrow::Cow<'):
+        return 'text'
+    return 'other'
+
+
+def _tag_of_value(v):
+    v0 = deref(v)
+    if isinstance(v0, tuple) and len(v0) == 3 and v0[0] == 'range':
+        return 'range'
+    if isinstance(v0, VecObj):
+        x = deref(v0.items[0]) if v0.items else None
+        if x is None:
+            return 'vec'
+        if isinstance(x, tuple) and len(x) == 3 and x[0] == 'struct' and x[1] == 'toml_edit::key::Key':
+            return 'keys'
+        if isinstance(x, tuple) and len(x) == 3 and x[0] == 'ctor' and x[1].startswith('toml_edit::item::Item::'):
+            return 'items'
+        return 'pairs'
+    if isinstance(v0, tuple) and len(v0) == 3 and v0[0] in ('struct', 'ctor'):
+        n = v0[1]
+        if n.startswith('toml_edit::value::Value::'):
+            return 'value'
+        if n.startswith('toml_edit::item::Item::'):
+            return 'item'
+        return {'toml_edit::raw_string::RawString': 'raw', 'toml_edit::internal_string::InternalString': 'istr', 'toml_edit::key::Key': 'key'}.get(n, 'other')
+    if isinstance(v0, str):
+        return 'text'
+    if isinstance(v0, int) and not isinstance(v0, bool):
+        return 'byte'
+    return 'other'
+
+
+def _split_tuple_type(t):
+    parts, cur, dep = [], '', 0
+    for ch in t[1:-1]:
+        if ch in '(<[':
+            dep += 1
+        if ch in ')>]':
+            dep -= 1
+        if ch == ',' and dep == 0:
+            parts.append(cur.strip())
+            cur = ''
+        else:
+            cur += ch
+    if cur.strip():
+        parts.append(cur.strip())
+    return parts
+
+
+def shape_for(params, parts):
+    """arguments for a closure from what the grammar rule delivers: `parts` are the outputs of the rule's sub-parsers in the order of the grammar; each goes to
+    the parameter leaf of its type (so the nesting of the tuples — `(key, (sep, (pre, v, suf)))` today — may change without the meaning changing)"""
+    leaves = []
+
+    def flat(v):
+        if isinstance(v, tuple) and not (len(v) == 3 and v[0] in ('range', 'struct', 'ctor')):
+            for x in v:
+                flat(x)
+        else:
+            leaves.append([_tag_of_value(v), v, False])
+    for x in parts:
+        flat(x)
+
+    def take(tag):
+        for lf in leaves:
+            if not lf[2] and (lf[0] == tag or (lf[0] == 'vec' and tag in ('keys', 'pairs', 'items'))):
+                lf[2] = True
+                return lf[1]
+        if tag == 'other':
+            rest = [lf for lf in leaves if not lf[2]]
+            if len(rest) == 1:
+                rest[0][2] = True
+                return rest[0][1]
+        raise Unanalysable(f'the closure takes a `{tag}` that the grammar rule does not deliver')
+
+    def of_type(t):
+        t = (t or '').strip()
+        if t.startswith('(') and t.endswith(')'):
+            return tuple(of_type(x) for x in _split_tuple_type(t))
+        return take(_tag_of_type(t))
+
+    def of_pat(p):
+        k = p.get('k')
+        if k == 'p_tuple':
+            return tuple(of_pat(x) for x in p['pats'])
+        if k == 'p_wild':
+            return ('unused',)
+        if k == 'p_bind':
+            return of_type(p.get('t'))
+        raise Unanalysable(f'a closure parameter pattern `{k}`')
+    return [of_pat(p) for p in params]
+
+
 class Pipeline:
     def __init__(self, facts):
         self.f = facts
-        self.it = PrintInterp(Evaluator(facts))
+        self.it = ScriptedInterp(Evaluator(facts))
         self.st = None
 
     # -- pieces of /repo ------------------------------------------------------------------------------------------------------
@@ -68,7 +189,22 @@ class Pipeline:
         if len(cl) != 1:
             raise Unanalysable(f'{len(cl)} closures of `{d}` match the expected shape')
         env = self.state_env(d)
-        return self.it.apply(self.it.val(cl[0], env), list(args))
+        return self.it.apply(self.it.val(cl[0], env), shape_for(cl[0].get('params', []), args))
+
+    def scripted(self, d, script):
+        """the body of a parser function written as statements, with the results of its `parse_next` calls supplied in the order of the grammar"""
+        b = self.f.body(d) if self.f.has_body(d) else None
+        if b is None:
+            raise Unanalysable(f'`{d}` not found')
+        self.it.script = list(script)
+        try:
+            r = self.it.apply_fn(b, [('input',)])
+            left = self.it.script
+        finally:
+            self.it.script = None
+        if left:
+            raise Unanalysable(f'`{d}` asks for fewer parse results than its grammar rule has parts')
+        return r
 
     @staticmethod
     def calls(name):
@@ -100,10 +236,10 @@ class Pipeline:
             name = kt[1:-1] if kt[0] in '"\'' else kt
             simple = [c for c in self.closures(PP + 'key::simple_key') if self.inner(c) and len(c.get('params', [])) == 1 and c['params'][0].get('k') == 'p_tuple']
             if len(simple) == 1:
-                sk = self.it.apply(self.it.val(simple[0], {}), [(self.internal(name), rng(ks, ks + len(kt)))])
+                sk = self.it.apply(self.it.val(simple[0], {}), shape_for(simple[0]['params'], [self.internal(name), rng(ks, ks + len(kt))]))
             else:
                 sk = (self.fn('toml_edit::raw_string::RawString::with_span', rng(ks, ks + len(kt))), self.internal(name))
-            k = self.action(d, lambda c: self.inner(c) and self.calls('with_dotted_decor')(c), (rng(m.start(1), ks), sk, rng(m.end(2), m.end(3))))
+            k = self.action(d, lambda c: self.inner(c) and self.calls('with_dotted_decor')(c), rng(m.start(1), ks), sk, rng(m.end(2), m.end(3)))
             keys.append(k)
             pos = m.end()
             if pos < len(text) and text[pos] == '.':
@@ -123,19 +259,101 @@ class Pipeline:
         c = [d for d in self.f.bodies if d.startswith('<toml_edit::internal_string::InternalString as core::convert::From<&') and d.endswith('>::from')]
         return self.fn(c[0], name) if c else name
 
+    WSCN = re.compile(r'(?:[ \t\n]|#[^\n]*\n)*')
+
+    def array(self, text, pos):
+        """`array` on text[pos:] (text[pos] is `[`): array_values and array_value evaluated with what their sub-parsers match; returns (Array, position after `]`)"""
+        A = PP + 'array::'
+        p = pos + 1
+        if text.startswith(']', p):
+            arr = self.unwrap(self.scripted(A + 'array_values', [('ctor', 'core::option::Option::Some', (ord(']'),))]), 'array')
+            return arr, p + 1
+        items = []
+        while True:
+            m = self.WSCN.match(text, p)
+            if text[m.end()] in '],':
+                break                                   # no value here: `separated` stops and gives back what it read after the last element
+            v, p2 = self.value(text, m.end())
+            m2 = self.WSCN.match(text, p2)
+            parts = [rng(p, m.end()), v, rng(p2, m2.end())]
+            acts = [c for c in self.closures(A + 'array_value') if self.inner(c)]
+            if len(acts) == 1:
+                # written as one combinator: `(ws, value, ws).map(|(prefix, value, suffix)| ..)`
+                it_ = self.it.apply(self.it.val(acts[0], {}), shape_for(acts[0].get('params', []), parts))
+                it_ = it_[2][0] if isinstance(it_, tuple) and len(it_) == 3 and it_[0] == 'ctor' and it_[1] == OK else it_
+            else:
+                it_ = self.unwrap(self.scripted(A + 'array_value', parts), 'array element')
+            items.append(it_)
+            p = m2.end()
+            if text[p] == ',':
+                # the separator belongs to `separated` only if another element follows
+                m3 = self.WSCN.match(text, p + 1)
+                if text[m3.end()] in '],':
+                    break
+                p += 1
+                continue
+            break
+        script = [('ctor', 'core::option::Option::None'), VecObj(items)]
+        if items:
+            comma = text[p] == ','
+            script.append(('ctor', 'core::option::Option::Some', (ord(','),)) if comma else ('ctor', 'core::option::Option::None'))
+            if comma:
+                p += 1
+        m = self.WSCN.match(text, p)
+        script.append(rng(p, m.end()))
+        if text[m.end()] != ']':
+            raise ValueError(f'no `]` at {m.end()} in {text!r}')
+        arr = self.unwrap(self.scripted(A + 'array_values', script), 'array')
+        return arr, m.end() + 1
+
+    def inline_table(self, text, pos):
+        """`inline_table` on text[pos:] (text[pos] is `{`): the keyval closure for every pair, then table_from_pairs through the closure of inline_table"""
+        IT_ = PP + 'inline_table::'
+        p = pos + 1
+        pairs = []
+        ws = re.compile(r'[ \t]*')
+        while True:
+            m = ws.match(text, p)
+            if text[m.end()] == '}':
+                break
+            keys, p2 = self.key_path(text, p)
+            if text[p2] != '=':
+                raise ValueError(f'no `=` at {p2} in {text!r}')
+            m1 = ws.match(text, p2 + 1)
+            v, p3 = self.value(text, m1.end())
+            m2 = ws.match(text, p3)
+            kv = self.action(IT_ + 'keyval', lambda c: self.inner(c), keys, ord('='), rng(p2 + 1, m1.end()), v, rng(p3, m2.end()))
+            pairs.append(kv)
+            p = m2.end()
+            if text[p] == ',':
+                p += 1
+                continue
+            break
+        m = ws.match(text, p)
+        if text[m.end()] != '}':
+            raise ValueError(f'no `}}` at {m.end()} in {text!r}')
+        pre = self.fn('toml_edit::raw_string::RawString::with_span', rng(p, m.end()))
+        t = self.action(IT_ + 'inline_table', lambda c: self.inner(c) and self.calls('table_from_pairs')(c), VecObj(pairs), pre)
+        return self.unwrap(t, f'inline table at {pos}'), m.end() + 1
+
     def value(self, text, pos):
+        d = PP + 'value::value'
+        if text[pos] in '[{':
+            inner, end = (self.array if text[pos] == '[' else self.inline_table)(text, pos)
+            v = ('ctor', V_ + ('Array' if text[pos] == '[' else 'InlineTable'), (inner,))
+            v = self.action(d, lambda c: self.inner(c) and self.calls('apply_raw')(c), v, rng(pos, end))
+            return v, end
         m = VAL_RE.match(text, pos)
         if not m:
             raise ValueError(f'no value at {pos} in {text!r}')
         vt = m.group(0)
-        d = PP + 'value::value'
         if vt[0] == '"':
             v = self.action(d, lambda c: self.inner(c) and self.calls('into_owned')(c), vt[1:-1])
         elif vt in ('true', 'false'):
             v = self.fn("<toml_edit::value::Value as core::convert::From<bool>>::from", vt == 'true')
         else:
             v = self.fn("<toml_edit::value::Value as core::convert::From<i64>>::from", int(vt))
-        v = self.action(d, lambda c: self.inner(c) and self.calls('apply_raw')(c), (v, rng(m.start(), m.end())))
+        v = self.action(d, lambda c: self.inner(c) and self.calls('apply_raw')(c), v, rng(m.start(), m.end()))
         return v, m.end()
 
     def line_trailing(self, text, pos):
@@ -176,7 +394,7 @@ class Pipeline:
                 p2 += len(close)
                 tr, after = self.line_trailing(text, p2)
                 fn, ev = (PP + 'table::array_table', 'on_array_header') if arr else (PP + 'table::std_table', 'on_std_header')
-                r = self.action(fn, lambda c: self.inner(c) and self.calls(ev)(c), ((keys, rng(start, p2)), tr))
+                r = self.action(fn, lambda c: self.inner(c) and self.calls(ev)(c), keys, rng(start, p2), tr)
                 self.unwrap(r, f'header at {start}')
                 pos = after
             else:
@@ -188,7 +406,7 @@ class Pipeline:
                 m = re.compile(r'[ \t]*').match(text, p2)
                 v, p3 = self.value(text, m.end())
                 tr, after = self.line_trailing(text, p3)
-                kv = self.action(D + 'parse_keyval', lambda c: self.inner(c), (keys, ('=', (rng(p2, m.end()), v, tr))))
+                kv = self.action(D + 'parse_keyval', lambda c: self.inner(c), keys, ord('='), rng(p2, m.end()), v, tr)
                 kv = self.unwrap(kv, f'key-value pair at {start}')
                 r = self.action(D + 'keyval', lambda c: self.inner(c) and self.calls('on_keyval')(c), kv)
                 self.unwrap(r, f'key-value pair at {start}')
